@@ -43,7 +43,9 @@ var Kinds = []Kind{
 		if err != nil {
 			return "", err
 		}
-		return cv.SubAlloc(s), nil
+		tm := cv.SubAlloc(s)
+		cv.Scribble(&s)
+		return tm, nil
 	}},
 	{"KBals", "VBals", func(g *cv.Gen) (func(io.Writer) error, string) {
 		a := g.Alloc(g.R.Intn(5), 1+g.R.Intn(5), 0)
@@ -54,7 +56,9 @@ var Kinds = []Kind{
 		if err != nil {
 			return "", err
 		}
-		return cv.Bals(b), nil
+		tm := cv.Bals(b)
+		cv.Scribble(&b)
+		return tm, nil
 	}},
 	{"KAlloc", "VAlloc", func(g *cv.Gen) (func(io.Writer) error, string) {
 		a := g.Alloc(1+g.R.Intn(5), 1+g.R.Intn(5), g.R.Intn(4))
@@ -65,7 +69,9 @@ var Kinds = []Kind{
 		if err != nil {
 			return "", err
 		}
-		return cv.Alloc(a), nil
+		tm := cv.Alloc(a)
+		cv.Scribble(&a)
+		return tm, nil
 	}},
 	{"KState", "VState", func(g *cv.Gen) (func(io.Writer) error, string) {
 		s := g.State()
@@ -76,7 +82,9 @@ var Kinds = []Kind{
 		if err != nil {
 			return "", err
 		}
-		return cv.State(&s), nil
+		tm := cv.State(&s)
+		cv.Scribble(&s)
+		return tm, nil
 	}},
 	{"KParams", "VParams", func(g *cv.Gen) (func(io.Writer) error, string) {
 		p := g.Params(2 + g.R.Intn(4))
@@ -87,7 +95,9 @@ var Kinds = []Kind{
 		if err != nil {
 			return "", err
 		}
-		return cv.Params(&p), nil
+		tm := cv.Params(&p)
+		cv.Scribble(&p)
+		return tm, nil
 	}},
 	{"KTx", "VTx", func(g *cv.Gen) (func(io.Writer) error, string) {
 		t := g.Tx()
@@ -98,7 +108,9 @@ var Kinds = []Kind{
 		if err != nil {
 			return "", err
 		}
-		return cv.Tx(t), nil
+		tm := cv.Tx(t)
+		cv.Scribble(&t)
+		return tm, nil
 	}},
 	{"KWamap", "VWamap", func(g *cv.Gen) (func(io.Writer) error, string) {
 		m := g.WAddr()
@@ -109,7 +121,9 @@ var Kinds = []Kind{
 		if err != nil {
 			return "", err
 		}
-		return cv.Wamap(m), nil
+		tm := cv.Wamap(m)
+		cv.Scribble(m)
+		return tm, nil
 	}},
 	{"KWamaps", "VWamaps", func(g *cv.Gen) (func(io.Writer) error, string) {
 		n := g.R.Intn(5)
@@ -124,7 +138,9 @@ var Kinds = []Kind{
 		if err != nil {
 			return "", err
 		}
-		return cv.Wamaps(m.Addr), nil
+		tm := cv.Wamaps(m.Addr)
+		cv.Scribble(&m)
+		return tm, nil
 	}},
 	{"KRamap", "VRamap", func(g *cv.Gen) (func(io.Writer) error, string) {
 		m := g.RAddr()
@@ -135,7 +151,9 @@ var Kinds = []Kind{
 		if err != nil {
 			return "", err
 		}
-		return cv.Ramap(m), nil
+		tm := cv.Ramap(m)
+		cv.Scribble(m)
+		return tm, nil
 	}},
 	{"KRamaps", "VRamaps", func(g *cv.Gen) (func(io.Writer) error, string) {
 		l := g.RAddrs(g.R.Intn(5))
@@ -146,7 +164,9 @@ var Kinds = []Kind{
 		if err != nil {
 			return "", err
 		}
-		return cv.Ramaps(m), nil
+		tm := cv.Ramaps(m)
+		cv.Scribble(m)
+		return tm, nil
 	}},
 	{"KMsg", "VMsg", func(g *cv.Gen) (func(io.Writer) error, string) {
 		m := g.Msg(wire.Type(g.R.Intn(int(wire.LastType))))
@@ -156,7 +176,9 @@ var Kinds = []Kind{
 		if err != nil {
 			return "", err
 		}
-		return cv.Msg(m), nil
+		tm := cv.Msg(m)
+		cv.Scribble(m)
+		return tm, nil
 	}},
 	{"KEnv", "VEnv", func(g *cv.Gen) (func(io.Writer) error, string) {
 		e := g.Envelope(wire.Type(g.R.Intn(int(wire.LastType))))
@@ -166,7 +188,9 @@ var Kinds = []Kind{
 		if err != nil {
 			return "", err
 		}
-		return cv.Envelope(e), nil
+		tm := cv.Envelope(e)
+		cv.Scribble(e)
+		return tm, nil
 	}},
 }
 
@@ -284,6 +308,11 @@ func RunC14(seed int64, tier, out string) {
 			res.CaseIndex = append(res.CaseIndex, "dec/"+class)
 			res.Count("dec/"+class, o, fmt.Sprintf("dec/%s/%s/%d", class, o, len(bs)/64), false)
 			res.Sample(map[string]interface{}{"kind": class, "value": term, "bytes": len(bs)})
+			// the decoded value was modified in place after rendering (cv.Scribble): decoding is a
+			// function of the bytes, so a second decode of the same bytes yields the same value
+			if o2, t3, _, _ := Decode(k, append(append([]byte{}, bs...), extra...)); o == "ok" && (o2 != o || t3 != t2) {
+				fail(k.Name+".Decode", class+"/again", "decoding the same bytes again, after the value decoded first was modified in place, gives a different value", idx, map[string]string{"first": t2, "second": t3})
+			}
 			switch {
 			case o != "ok":
 				fail(k.Name+".Decode", class, "decoding the encoding of a well-formed value: "+o, idx, term)
@@ -459,6 +488,39 @@ func RunC13(seed int64, tier, out string) {
 		{"KAlloc", "over-limit/parts-1025", cat(u16(1), u16(1025), u16(0), asset, u16(1), u16(1025), zeros(1025))},
 		{"KAlloc", "over-limit/parts-1025-header-lies", cat(u16(1), u16(2), u16(0), asset, u16(1), u16(1025), zeros(1025))},
 		{"KAlloc", "over-limit/locked-1025", cat(u16(1), u16(1), u16(1025), asset, u16(1), u16(1), zeros(1), rep(cat(zeros(32), u16(1), zeros(1), u16(0)), 1025))},
+	}
+	// balance matrices whose two dimensions are each legal but whose product is large: header and the
+	// first amounts only (the decoder must answer with an error at the end of input, whatever it
+	// allocates up front), and in the thorough tier complete well-formed matrices
+	dims := []int{1, 2, 64, 255, 256, 257, 300, 512, 1023, 1024}
+	for _, na := range dims {
+		for _, np := range dims {
+			if na*np < 4096 {
+				continue
+			}
+			tail := (na*7 + np) % 5
+			over = append(over, struct {
+				k     string
+				class string
+				bs    []byte
+			}{"KBals", "large-legal/header", cat(u16(na), u16(np), zeros(tail))})
+		}
+	}
+	for _, d := range [][2]int{{256, 256}, {1024, 64}, {300, 300}} {
+		over = append(over, struct {
+			k     string
+			class string
+			bs    []byte
+		}{"KAlloc", "large-legal/header", cat(u16(d[0]), u16(d[1]), u16(0), rep(asset, d[0]), u16(d[0]), u16(d[1]), zeros(3))})
+	}
+	if tier == "thorough" {
+		for _, d := range [][2]int{{300, 300}, {256, 256}, {1024, 65}} {
+			over = append(over, struct {
+				k     string
+				class string
+				bs    []byte
+			}{"KBals", "large-legal/complete", cat(u16(d[0]), u16(d[1]), zeros(d[0]*d[1]))})
+		}
 	}
 	for _, o := range over {
 		k := kind(o.k)
